@@ -342,6 +342,15 @@ func checkXzWriter(prop string) func(a *checkArgs, r *Result) error {
 			return nil
 		}
 		rng := rand.New(rand.NewSource(a.seed))
+		if prop == "C01" {
+			nsel := 300
+			if a.tier == "thorough" {
+				nsel = 3000
+			}
+			if err := selectTie(r, dp, rand.New(rand.NewSource(a.seed+31)), nsel); err != nil {
+				return err
+			}
+		}
 		n := 2500
 		big := 8
 		if a.tier == "thorough" {
